@@ -6288,7 +6288,7 @@ impl<'a, 'graph> Builder<'a, 'graph> {
         if let Some((package_nv, fut)) = maybe_version_load_fut {
           let inner = fut.await.map_err(|err| {
             ModuleErrorKind::Load {
-              specifier: jsr_url_provider.package_url(&package_nv),
+              specifier: load_specifier.clone(),
               maybe_referrer: maybe_range.cloned(),
               err: err.into(),
             }
